@@ -215,6 +215,13 @@ def singles(ctx):
         for b in range(256):
             for s in ("%%%02X" % b, "%%%02x" % b, "x%%%02Xy" % b, "%%C3%%%02X" % b, "%%%02X%%A9" % b):
                 ctx.run("diff", cfg=cfg, s=s)
+        for i in range(128, 256):
+            # one-byte (Latin-1) strings: nothing else in them needs quoting
+            for s in (chr(i), "a" + chr(i) + "b", chr(i) * 3, "safe-text_" + chr(i), chr(i) + "/x"):
+                ctx.run("diff", cfg=cfg, s=s)
+        for cp in (0x100, 0x7FF, 0x800, 0xFFFF, 0x10000, 0x3FFFF, 0x40000, 0xFFFFF, 0x100000, 0x10FFFF):
+            for s in (chr(cp), "a" + chr(cp), chr(cp) * 2):
+                ctx.run("diff", cfg=cfg, s=s)
         for t in ("%E2%82", "%E2", "%C3", "%F0%9F%98", "%F0%9F", "%F0"):
             for stray in ("%", "%%", "%z", "%4", "%zz", "+", " ", "a", "%2"):
                 for tail in ("%AC", "%A9", "%80", "", "x", "%%AC", "%41"):
